@@ -264,6 +264,7 @@ func (fr *Frame) call(st *State, v ssa.Value, cc *ssa.CallCommon, site ssa.Instr
 		argTypes = append(argTypes, a.Type())
 	}
 	pos := site.Pos()
+	fr.curSite = site
 
 	if b, ok := cc.Value.(*ssa.Builtin); ok && !cc.IsInvoke() {
 		fr.builtin(st, v, b, cc, args, pos)
@@ -641,11 +642,21 @@ func (fr *Frame) callsiteSpecs(st *State, key string, callee *ssa.Function, args
 			}
 		}
 		sc.localFrame = fr
-		g := sc.evalBool(cs.Clause.E)
+		if fr == top {
+			sc.at = fr.curSite
+		}
 		nm := cs.Clause.Name
 		if nm == "" {
 			nm = mangle(pat)
 		}
+		gv, evalOK := sc.tryEval(cs.Clause.E)
+		if !evalOK || !(gv.K == "bool" || (gv.Ty != nil && isBool(gv.Ty))) {
+			// the clause names something the code does not have (e.g. a lock that does not exist): the
+			// obligation cannot hold; it is reported as failed without a model
+			x.c.oblige(fmt.Sprintf("%s#call:%s", x.target, nm), "call", x.target, "callsite "+cs.Callee+" "+cs.Clause.Text+"   [does not evaluate against the current code]", fr.pos(pos), st.Reach, "false", nil)
+			continue
+		}
+		g := gv.T
 		x.c.oblige(fmt.Sprintf("%s#call:%s", x.target, nm), "call", x.target, "callsite "+cs.Callee+" "+cs.Clause.Text, fr.pos(pos), st.Reach, g, x.topReqs)
 		// once checked, the fact may be used by what follows (cut)
 		x.c.assume(implies(st.Reach, g))
@@ -654,6 +665,7 @@ func (fr *Frame) callsiteSpecs(st *State, key string, callee *ssa.Function, args
 
 func (fr *Frame) goStmt(st *State, in *ssa.Go) {
 	x := fr.x
+	fr.curSite = in
 	cc := in.Common()
 	var args []string
 	if cc.IsInvoke() {
@@ -819,6 +831,21 @@ func (fr *Frame) appendOp(st *State, v ssa.Value, cc *ssa.CallCommon, args []str
 		fr.env[v] = r
 	}
 	_, tIsStr := cc.Args[1].Type().Underlying().(*types.Basic)
+	var catFact func()
+	if ii, ok := basicInt(elem); ok && ii.w == 8 {
+		// byte strings: the content of the result is the concatenation of the contents of the operands
+		// (a definitional fact about append, stated over the mathematical byte strings bstr/s_cat)
+		bs, bt := x.bstrOf(st, s), t
+		if !tIsStr {
+			bt = x.bstrOf(st, t)
+		}
+		catFact = func() { c.assume(implies(st.Reach, eq(x.bstrOf(st, r), x.scat(bs, bt)))) }
+	}
+	defer func() {
+		if catFact != nil {
+			catFact()
+		}
+	}()
 	x.bulkWrite(st, elem, arr, c.idx(0), nl, func(i string, lp leafPath, pre map[string]string) string {
 		var src string
 		if tIsStr {
